@@ -50,6 +50,31 @@ class Namespace(typing.Generic[T]):
         """
         raise NotImplementedError()  # pragma: no cover
 
+    def get_load_global_name(self, name: str) -> expr:
+        """
+        Load a name which is global in this namespace.
+        The converted functions are nested lambdas, a plain name would be
+        captured from an enclosing function which has a local variable
+        of the same name. Load it from globals() in this case.
+        """
+        outer = getattr(self, "outer_nsp", None)
+        while outer is not None:
+            if isinstance(outer, NamespaceFunction):
+                try:
+                    shadowed = outer.symt.lookup(name).is_local()
+                except KeyError:
+                    shadowed = False
+                if shadowed:
+                    return Subscript(
+                        value=Call(
+                            func=Name(id="globals", ctx=Load()), args=[], keywords=[]
+                        ),
+                        slice=Constant(value=name),
+                        ctx=Load(),
+                    )
+            outer = getattr(outer, "outer_nsp", None)
+        return Name(id=name, ctx=Load())
+
 
 class NamespaceGlobal(Namespace[symtable.SymbolTable]):
     use_itertools: bool = False
@@ -205,6 +230,12 @@ class NamespaceFunction(Namespace[symtable.Function]):
                 ctx=Load(),
             )
         else:  # globals or locals except free
+            try:
+                is_global = self.symt.lookup(name).is_global()
+            except KeyError:
+                is_global = False
+            if is_global:
+                return self.get_load_global_name(name)
             return Name(id=name, ctx=Load())
 
 
@@ -307,7 +338,7 @@ class NamespaceClass(Namespace[symtable.Class]):
                 ctx=Load(),
             )
         elif symbol.is_global():
-            return Name(id=name, ctx=Load())
+            return self.get_load_global_name(name)
         else:
             # a class member
             return Subscript(
